@@ -7,7 +7,7 @@ from hypothesis import strategies as st
 from vlib import gens
 from vlib.core import Prop, Sub, Violation, calling, check
 from vlib.oracles import hull_dist, hull_weight_margin, lp_dist, lp_margin
-from vlib.systems import Sys, matrix_system, target_rows
+from vlib.systems import proportional_variant, Sys, matrix_system, target_rows
 
 TAU_IN = 1e-6      # inside margin (fraction of the half range) above which acceptance is required
 TAU_GEO = 1e-7     # and its geometric lower bound relative to the gamut extent
@@ -46,9 +46,10 @@ def _geo_margin(sv: Sys, t):
 @st.composite
 def iff_case(draw):
     sysd = draw(matrix_system(m=(2, 5), shape=draw(st.sampled_from(["exact", "under", "under"])), ub_kinds=("finite",), surplus=(1, 3)))
+    sysd, _prop = draw(proportional_variant(sysd, one_in=6))
     rows = draw(target_rows(sysd, ["interior", "interior", "facet", "face", "vertex", "near_in", "near_in", "near_out", "near_out",
                                    "outside", "scaled_out", "below", "below_lb", "random"], nrows=(2, 8)))
-    return dict(system=sysd, rows=rows, entry=draw(st.sampled_from(["estimator", "function"])))
+    return dict(system=sysd, rows=rows, entry=draw(st.sampled_from(["estimator", "function"])), proportional=_prop)
 
 
 def body_iff(case):
@@ -56,7 +57,7 @@ def body_iff(case):
     B = np.array([r["b"] for r in case["rows"]], dtype=float)
     got = _call_membership(sv, B, case["entry"])
     check(got.shape == (B.shape[0],) and got.dtype == bool, "iff:shape", f"result shape {got.shape} dtype {got.dtype} for {B.shape[0]} targets")
-    labs = sv.labels() + [f"entry:{case['entry']}"]
+    labs = sv.labels() + [f"entry:{case['entry']}"] + (["proportional-sources"] if case.get("proportional") else [])
     for r, b, g in zip(case["rows"], B, got):
         t = lp_margin(sv.Ap, sv.basep, sv.lb, sv.ub, b)
         d, _ = lp_dist(sv.Ap, sv.basep, sv.lb, sv.ub, b)
